@@ -114,6 +114,12 @@ fn check_diagram(run: &Run, name: &str, d: &Diagram, level: u8) {
         let r = khovanov::<Fp<2>>(d, &Fp::new(c.h), &Fp::new(c.t), c.reduced.then_some(be));
         compare_with::<FF2>(run, "FF2", name, d, &link, *c, &r);
     }
+    // F5: a field with units other than +-1 (Gaussian elimination on a pivot u with u^-1 != u)
+    let f5cfg = if level >= 2 { configs(&[0, 1, 2], true) } else if level == 1 { configs(&[0, 1], true) } else { vec![Cfg { h: 0, t: 0, reduced: false }, Cfg { h: 1, t: 1, reduced: false }] };
+    for c in &f5cfg {
+        let r = khovanov::<Fp<5>>(d, &Fp::new(c.h), &Fp::new(c.t), c.reduced.then_some(be));
+        compare_with::<FF<5>>(run, "FF<5>", name, d, &link, *c, &r);
+    }
     let f3cfg = if level >= 2 { configs(&[0, 1, 2], true) } else if level == 1 { configs(&[0, 1], true) } else { vec![Cfg { h: 0, t: 0, reduced: false }] };
     for c in &f3cfg {
         let r = khovanov::<Fp<3>>(d, &Fp::new(c.h), &Fp::new(c.t), c.reduced.then_some(be));
@@ -198,7 +204,7 @@ fn main() {
         "traces_validated_against_impl": o.histories_finished + s.executions,
         "evaluations": part1 + o.transitions + s.executions,
         "distinct_nontrivial": run.get("diagrams"),
-        "rule": "part 1: all planar diagrams with <= 3 (thorough 4) crossings + all braid words (2 strands <= 6 letters, 3 <= 4, 4 <= 3; thorough 7/6/5) x rings {i64,i128,BigInt,Ratio<i64>,FF2,FF<3>} x (h,t) grids x reduced/unreduced, compared with the reference cube up to isomorphism; part 2: BFS over all absorb/deloop/eliminate orders of the real TngComplex machine; part 3: all schedules (preemption bounded) of the parallel edge construction",
+        "rule": "part 1: all planar diagrams with <= 3 (thorough 4) crossings + all braid words (2 strands <= 6 letters, 3 <= 4, 4 <= 3; thorough 7/6/5) x rings {i64,i128,BigInt,Ratio<i64>,FF2,FF<3>,FF<5>} x (h,t) grids x reduced/unreduced, compared with the reference cube up to isomorphism; part 2: BFS over all absorb/deloop/eliminate orders of the real TngComplex machine; part 3: all schedules (preemption bounded) of the parallel edge construction",
         "part1_inputs_x_configs": {"diagrams": run.get("diagrams"), "library_evaluations": part1},
         "part2_orders": o.json,
         "part3_schedules": s.json,
